@@ -63,11 +63,24 @@ Proof.
     rewrite rev_nth by lia. rewrite Hl, Hn by lia.
     replace (Z.of_nat (64 * length a - 1)) with (64 * Z.of_nat (length a) - 1) by lia.
     rewrite Z.bits_above_log2; [reflexivity|lia|].
-    destruct (Z.eq_dec (val a) 0) as [->|Hnz]; [cbn; lia|].
+    destruct (Z.eq_dec (val a) 0) as [Hz|Hnz]; [rewrite Hz; change (Z.log2 0) with 0; lia|].
     apply Z.log2_lt_pow2; lia. }
   subst b. exists t. inversion Hbb; subst. split; [reflexivity|]. split; [assumption|].
   split; [|cbn [length] in Hlb; lia].
   rewrite <- Hvb. unfold bval_be. cbn [fold_left]. reflexivity.
+Qed.
+
+Lemma combine_fst_firstn {X Y : Type} : forall (xs : list X) (ys : list Y),
+  map fst (combine xs ys) = firstn (length ys) xs.
+Proof.
+  induction xs as [|x xs IH]; intros [|y ys]; cbn [combine map length firstn fst]; try reflexivity.
+  rewrite IH. reflexivity.
+Qed.
+Lemma combine_snd_firstn {X Y : Type} : forall (xs : list X) (ys : list Y),
+  map snd (combine xs ys) = firstn (length xs) ys.
+Proof.
+  induction xs as [|x xs IH]; intros [|y ys]; cbn [combine map length firstn snd]; try reflexivity.
+  rewrite IH. reflexivity.
 Qed.
 
 Section Proofs.
